@@ -712,7 +712,8 @@ func (c *Ctx) analyseLoop(nodes ...ast.Node) *loopInfo {
 	exiting := map[*ast.BlockStmt]bool{}
 	for _, n := range nodes {
 		if n != nil {
-			markExitingBlocks(n, true, false, exiting)
+			// in a callback body "return" ends one invocation, not the repetition: nothing in it is an exit
+			markExitingBlocks(n, !c.analysingCallback, c.analysingCallback, exiting)
 		}
 	}
 	for _, n := range nodes {
